@@ -7,6 +7,7 @@ CONSTANTS
   P = 4
   W = 5
   Strict = FALSE
+  StrictHeal = FALSE
   PortOps <- AllOps
   OpPorts <- AllOpPorts
   Fresh <- AnyFresh
